@@ -2,6 +2,7 @@
 From Coq Require Import Bool ZArith List.
 From K Require Import Lib.Types Model.Machine Model.Bus Model.Exec Model.Periph Model.Run Proofs.FrameProofs Proofs.RunProofs.
 Import ListNotations.
+From K Require Import Spec.ISA Spec.Domains Proofs.RefStep Proofs.Preserve Proofs.RunPlain Proofs.ExampleState.
 Open Scope Z_scope.
 
 (* One instruction of the loop (acct: 0 <= sync < 2,000,000, state_sum = 2,000,000 x #sync messages + sync, the bus
@@ -41,9 +42,34 @@ Proof. exact step_untouched. Qed.
 Example c13_example : sync_count [MsgSync 2000058; MsgIoPort 1 2 3; MsgSync 4000002] = 2.
 Proof. reflexivity. Qed.
 
+(* ---- the loop on plain programs is the iterated reference ----
+   [quiet s]: no interrupt request pending and the timer stopped; no control line arrives (empty script).
+   [plain_iter]: the instruction the operation-code map decodes at PC, inside the domain, executed by the reference semantics
+   and charged the reference's priced cycle table; then the accounting of run(): the time base advances by three times the
+   charge (on the CPU and on the bus), a sync message goes out when another multiple of 2,000,000 is passed.
+   [plain_run]: iterate until PC = exit address. *)
+Theorem run_iteration_is_one_reference_instruction :
+  forall s sync s4 sync2,
+    state_ok s -> quiet s -> plain_iter s sync = Some (s4, sync2) ->
+    iter_insn s sync false = (if pc s4 =? exit_addr s4 then Finished s4 else Continue (mkR (mkCtl s4 false false) sync2))
+    /\ state_ok s4 /\ quiet s4.
+Proof. exact iter_insn_plain. Qed.
+
+Theorem run_loop_is_the_iterated_reference :
+  forall fuel s sync sf,
+    state_ok s -> quiet s -> plain_run fuel s sync = Some sf ->
+    run_iters fuel nil (mkR (mkCtl s false false) sync) = Some (Finished sf) /\ state_ok sf.
+Proof. exact run_iters_plain. Qed.
+
+Example c13_plain_run_example :
+  state_ok (ex_state 0xffc002) /\ quiet (ex_state 0xffc002) /\ exists sf, plain_run 1 (ex_state 0xffc002) 0 = Some sf.
+Proof. split; [apply ex_state_ok|split; [split; reflexivity|eexists; vm_compute; reflexivity]]. Qed.
+
 Print Assumptions accounting_and_sync.
 Print Assumptions sync_once_per_multiple.
 Print Assumptions run_stops_at_exit.
 Print Assumptions run_propagates_error.
 Print Assumptions charge_bounded.
 Print Assumptions instructions_leave_time_base.
+Print Assumptions run_iteration_is_one_reference_instruction.
+Print Assumptions run_loop_is_the_iterated_reference.
